@@ -101,23 +101,21 @@ Proof. intro x. unfold is_upper, upper_char. rewrite andb_true_iff, !N.leb_le. t
 Lemma is_digit_iff : forall x, is_digit x = true <-> digit_char x.
 Proof. intro x. unfold is_digit, digit_char. rewrite andb_true_iff, !N.leb_le. tauto. Qed.
 
-Definition upper_of (c : cfg) : bool := match c_syntax c with AnyCaseKeys => true | LowerKeys => false end.
+Definition upper_of (c : cfg) : bool := syntax_upper (c_syntax c).
+Definition dollar_of (c : cfg) : bool := syntax_dollar (c_syntax c).
 
 Lemma key_chars_ok_iff : forall c first s,
   key_chars_ok c first s = true <->
   Forall (fun x => lower_key_char x \/ ((upper_of c && negb first) = true /\ upper_char x)) s.
 Proof.
-  intros c first s. unfold key_chars_ok. rewrite forallb_forall, Forall_forall.
+  intros c first s. unfold key_chars_ok. rewrite forallb_forall, Forall_forall. fold (upper_of c).
   split; intros H x Hx; specialize (H x Hx).
   - apply orb_true_iff in H. destruct H as [H|H].
     + left. apply is_lower_key_char_iff. exact H.
-    + right. unfold upper_of. destruct (c_syntax c); [discriminate|].
-      apply andb_true_iff in H. destruct H as [H1 H2]. rewrite H1. split; [reflexivity|].
-      apply is_upper_iff. exact H2.
+    + right. apply andb_true_iff in H. destruct H as [H1 H2]. split; [exact H1|]. apply is_upper_iff. exact H2.
   - apply orb_true_iff. destruct H as [H|[H1 H2]].
     + left. apply is_lower_key_char_iff. exact H.
-    + right. unfold upper_of in H1. destruct (c_syntax c); [discriminate|].
-      simpl in H1. rewrite H1. apply is_upper_iff in H2. rewrite H2. reflexivity.
+    + right. rewrite H1. apply is_upper_iff in H2. rewrite H2. reflexivity.
 Qed.
 
 Lemma seg_first_ok_iff : forall c s, seg_first_ok c s = true <-> key_seg false 3 250 s.
@@ -216,7 +214,8 @@ Definition core_ok (c : cfg) (s : ustring) : bool :=
   | [] => false
   end.
 
-Lemma syntax_ok_core : forall c s, selector_syntax_ok c s = core_ok c (strip_final_newline s).
+Lemma syntax_ok_core : forall c s,
+  selector_syntax_ok c s = core_ok c (if dollar_of c then strip_final_newline s else s).
 Proof. reflexivity. Qed.
 
 Lemma core_ok_iff : forall c s, core_ok c s = true <-> selector_grammar (upper_of c) s.
@@ -249,9 +248,13 @@ Proof.
       [apply (index_seg_plain _ Hg) | apply (key_seg_plain _ _ _ _ Hg)].
 Qed.
 
-Theorem selector_syntax : forall c s, selector_syntax_ok c s = true <-> selector_text (upper_of c) s.
+(* `$` variants: the grammar, possibly followed by one newline; \Z variants: the grammar exactly *)
+Theorem selector_syntax : forall c s,
+  selector_syntax_ok c s = true <->
+  if dollar_of c then selector_text (upper_of c) s else selector_grammar (upper_of c) s.
 Proof.
-  intros c s. rewrite syntax_ok_core. rewrite core_ok_iff. unfold selector_text. split.
+  intros c s. rewrite syntax_ok_core. rewrite core_ok_iff. destruct (dollar_of c); [|tauto].
+  unfold selector_text. split.
   - intro H. destruct (strip_cases s) as [E|E].
     + left. rewrite E in H. exact H.
     + right. exists (strip_final_newline s). split; assumption.
@@ -268,5 +271,8 @@ Lemma selector_syntax_examples :
   selector_syntax_ok cfg_pinned (u "labels.[x]") = false /\
   selector_syntax_ok cfg_pinned (u "labels..a") = false /\
   selector_syntax_ok cfg_pinned (u "x_m.Bar") = false /\
-  selector_syntax_ok cfg_repaired (u "x_m.Bar") = true.
+  selector_syntax_ok cfg_repaired (u "x_m.Bar") = true /\
+  selector_syntax_ok cfg_pinned (10%N :: rev (10%N :: rev (u "name"))) = false /\
+  selector_syntax_ok cfg_pinned (rev (10%N :: rev (u "name"))) = true /\
+  selector_syntax_ok cfg_repaired (rev (10%N :: rev (u "name"))) = false.
 Proof. vm_compute. repeat split. Qed.
